@@ -312,9 +312,16 @@ std::unique_ptr<Session> new_dlocp(const std::string &file, const std::string &r
     status += warned ? " warned=1" : " warned=0";
     auto ref = std::make_shared<RefDLO>(RefDLO{rr->functions, rr->instance});
     s->keep.push_back(ref);
-    s->orf = std::make_unique<TEO>(ref.get());
+    // a plug-in that omits eval_h / eval_h_N: every call is tried in a child first (the loader may jump
+    // through the null table member); the reference may be rejected by the vtable constructor (nh > 0)
+    s->fragile = (P.flags & (C20O_FLAG_NO_H | C20O_FLAG_NO_H_N)) != 0;
+    try {
+        s->orf = std::make_unique<TEO>(ref.get());
+    } catch (const std::runtime_error &) {
+        s->orf.reset();
+    }
     s->drw = s->od->get_R_work_size(); s->dsw = s->od->get_S_work_size();
-    s->rrw = s->orf->get_R_work_size(); s->rsw = s->orf->get_S_work_size();
+    if (s->orf) { s->rrw = s->orf->get_R_work_size(); s->rsw = s->orf->get_S_work_size(); }
     s->create = [u] { return make_handle(std::make_shared<alpaqa::ControlProblemWithCounters<DLControlProblem>>(*u)); };
     s->take_log();
     return s;
